@@ -158,6 +158,12 @@ class FlagFormula:
         if isinstance(e, ast.Name):
             ds = reaching_definitions(self.fn.node, e.id, self.use, self.pm)
             plain = [(st, v) for st, v, how in ds if v is not None]
+            # a count used as a condition: `excess = f - z` is true exactly when z != f; a constant 0 is false
+            diffs = [v for _, v in plain if isinstance(v, ast.BinOp) and isinstance(v.op, ast.Sub)]
+            zeros = [v for _, v in plain if isinstance(v, ast.Constant) and v.value == 0 and not isinstance(v.value, bool)]
+            if ds and len(plain) == len(ds) and diffs and len(diffs) + len(zeros) == len(plain) and len({fnorm(v) for v in diffs}) == 1:
+                v = diffs[0]
+                return ('not', atom(fnorm(ast.Compare(left=v.right, ops=[ast.Eq()], comparators=[v.left]))))
             if ds and len(plain) == len(ds) and len(plain) > 1 and all(isinstance(v, ast.Constant) and isinstance(v.value, bool) for _, v in plain) and self.depth < 8:
                 # a flag set to True / False in different branches (`todo = False ... if A: if B: ... else: todo = True`): it is True
                 # exactly where a True-assignment ran last -- with the False initialisation first, where some True-assignment ran
@@ -442,9 +448,17 @@ def rule_FX3(ctx, rep):
         pm = parents(fn.node)
         shifts, truncs = [], []
         for s in iter_nodes(fn.node):
-            if isinstance(s, ast.AugAssign) and isinstance(s.op, ast.RShift) and \
-                    ('f' in {x.id for x in ast.walk(s.value) if isinstance(x, ast.Name)} or 'frac_length' in norm(s.value)):
-                shifts.append(s)
+            if isinstance(s, ast.AugAssign) and isinstance(s.op, ast.RShift):
+                from . import sem as _sem
+                sv = s.value
+                if isinstance(sv, ast.Name) and sv.id != 'f' and not (isinstance(s.target, ast.Name) and s.target.id in fn.params):
+                    # the amount through a temporary (`excess = f - z`): any of its definitions mentions the fractional-bit count
+                    dv = [d[1] for d in reaching_definitions(fn.node, sv.id, s, pm) if d[1] is not None]
+                    if any('f' in {x.id for x in ast.walk(v_) if isinstance(x, ast.Name)} or 'frac_length' in norm(v_) for v_ in dv):
+                        shifts.append(s)
+                        continue
+                if 'f' in {x.id for x in ast.walk(sv) if isinstance(x, ast.Name)} or 'frac_length' in norm(sv):
+                    shifts.append(s)
             if isinstance(s, ast.Assign) and isinstance(s.value, ast.BinOp) and isinstance(s.value.op, ast.RShift) and fnorm(s.value.right) == 'f':
                 shifts.append(s)
         for c in iter_nodes(fn.node):
